@@ -58,4 +58,8 @@ def run(rep, fb, tier):
     from ..rules import lints as _lz
     _lz.rule_sibling_sizing(rep, fb)
     _lz.rule_raw_base_pointer(rep, fb)
+    from ..rules import lints2 as _l2
+    _l2.rule_failure_message_condition(rep, fb)
+    _l2.rule_byteswap_width(rep, fb)
+    _l2.rule_dtype_case_methods(rep, fb)
     rep.units = fb.units
